@@ -42,12 +42,13 @@ type WinCfg struct {
 	YieldP      float64 `json:"yield_p"`
 	ISSPlace    int     `json:"iss_place"` // C14: 0 none, 1 stack just below 2^31, 2 stack just below 2^32, 3/4 peer likewise
 	ISSBack     int     `json:"iss_back"`
-	Cookie      bool    `json:"syn_cookies,omitempty"`        // passive open through the SYN-cookie path (listener in flood mode)
-	DupSA       bool    `json:"syn_ack_repeated,omitempty"`   // active open: the peer's SYN-ACK arrives a second time (it missed the ACK)
-	SAWin       int     `json:"syn_ack_window,omitempty"`     // active open: the window the peer's SYN-ACK offers (0 = 65535)
-	SendBlocked bool    `json:"stack_send_blocked,omitempty"` // receiver role: the peer's window is 0 throughout and the stack's application has data queued that cannot leave
-	WinJitter   bool    `json:"ack_window_jitter,omitempty"`  // recovery scenario: every advancing ACK of the peer changes the advertised window a little
-	ISSMid      bool    `json:"iss_mid_space,omitempty"`      // the neutral twin of a C14 run: same placement, counted back from mid-space values
+	Cookie      bool    `json:"syn_cookies,omitempty"`          // passive open through the SYN-cookie path (listener in flood mode)
+	DupSA       bool    `json:"syn_ack_repeated,omitempty"`     // active open: the peer's SYN-ACK arrives a second time (it missed the ACK)
+	SAWin       int     `json:"syn_ack_window,omitempty"`       // active open: the window the peer's SYN-ACK offers (0 = 65535)
+	SendBlocked bool    `json:"stack_send_blocked,omitempty"`   // receiver role: the peer's window is 0 throughout and the stack's application has data queued that cannot leave
+	SmallWin    int     `json:"peer_window_segments,omitempty"` // recovery scenario: the receiver's window holds only this many segments
+	WinJitter   bool    `json:"ack_window_jitter,omitempty"`    // recovery scenario: every advancing ACK of the peer changes the advertised window a little
+	ISSMid      bool    `json:"iss_mid_space,omitempty"`        // the neutral twin of a C14 run: same placement, counted back from mid-space values
 }
 
 func neutralWin(raw json.RawMessage) json.RawMessage {
@@ -356,6 +357,9 @@ func (w *winWorld) senderStep(s Step) {
 	p := w.p
 	switch s.Op {
 	case "write":
+		if w.mssLimit <= 8 && s.C > 3000 {
+			s.C = 3000 // (a peer MSS of a few bytes makes every byte a segment: keep the run finite)
+		}
 		buf := make([]byte, s.C)
 		for i := range buf {
 			buf[i] = winByte(w.seed, 0, w.written+int64(i))
